@@ -4,8 +4,11 @@ A control is (name, module, old_text, new_text, expected_rule).  The patch is ap
 module's source *in memory* (never to disk); the whole program is re-indexed with that override and
 the property's rules are re-run into a scratch Run.  The control passes iff a violation of the
 expected rule appears that the unpatched tree does not have.  A patch that no longer applies is
-reported as skipped (the code moved on), not failed; if more than half are skipped the run fails
-closed, because the both-ways test of the checker has eroded.
+reported as skipped (the code moved on), not failed: a behaviour-preserving refactoring of the
+anchored code must not make the check exit non-zero, so skipped controls are recorded in the
+evidence and announced on stdout, and the instance floors of the rules remain the guard against
+vacuous passes.  (The first version failed closed when more than half were skipped; a held-out
+corpus of larger refactorings showed that this turned silent rules into exit 2.)
 """
 from __future__ import annotations
 
@@ -62,6 +65,8 @@ def run_controls(run: Run, controls: Sequence[Control],
             fired = True
             detail = f"analysis failed closed: {exc}"
         run.control(name, fired, detail)
-    if controls and skipped * 2 > len(controls):
-        raise AnalysisError(
-            f"{skipped}/{len(controls)} seeded controls no longer apply — refresh the controls")
+    if controls and skipped:
+        run.note(f"{skipped}/{len(controls)} in-memory controls no longer apply to this tree (their anchors moved); "
+                 "the rules were still decided and the instance floors checked")
+        if not run.quiet:
+            print(f"  NOTE {run.prop_id}: {skipped}/{len(controls)} in-memory controls no longer apply to this tree")
